@@ -1,0 +1,214 @@
+// +build verif
+
+// Accessors used by the external verification harness (/verif, properties C02
+// and C03).  Compiled only with -tags verif; nothing here changes behaviour:
+// thin wrappers around the two Voter handlers and a read-only dump of the
+// Voter / VoteDB / vote-tally state.
+
+package ucon
+
+import (
+	"github.com/youchainhq/go-youchain/common"
+	"github.com/youchainhq/go-youchain/params"
+)
+
+// Message statuses as the MessageHandler computes them (msg_handler.go).
+const (
+	VerifC02MsgOldRound      = uint8(msgOldRound)
+	VerifC02MsgOldRoundIndex = uint8(msgOldRoundIndex)
+	VerifC02MsgSame          = uint8(msgSame)
+	VerifC02MsgFuture        = uint8(msgFuture)
+	VerifC02MsgInvalid       = uint8(msgInvalid)
+)
+
+// VerifC02UpdateContext delivers a ContextChangeEvent synchronously (production:
+// Voter.eventLoop calls the same method for every event Server.processStepEvent posts).
+func (v *Voter) VerifC02UpdateContext(ev ContextChangeEvent) { v.updateContext(ev) }
+
+// VerifC02ProcessVote delivers one decoded vote exactly as
+// MessageHandler.HandleMsg does: sender is the address recovered from the
+// outer message signature, status the handler's classification.
+func (v *Voter) VerifC02ProcessVote(vt VoteType, data *BlockHashWithVotes, sender common.Address, status uint8) (error, bool) {
+	cache := &CachedVotesMessage{VotesData: data, addr: sender}
+	return v.processVoteMsg(VoteMsgEvent{Msg: cache, VType: vt}, MsgReceivedStatus(status))
+}
+
+type VerifC02AddrVote struct {
+	Hash   common.Hash
+	Double bool
+}
+
+// VerifC02Sta is a copy of one VoteSta.
+type VerifC02Sta struct {
+	Counts map[common.Hash]uint32
+	Addr   map[common.Address]VerifC02AddrVote
+	Info   map[common.Hash]map[common.Address]uint32 // recorded vote weight
+}
+
+// VerifC02Mgr is a copy of one VotesManager; Sta is indexed Prevote,
+// Precommit, NextIndex, Certificate.
+type VerifC02Mgr struct {
+	HasRound bool
+	Round    uint64
+	Index    uint32
+	Sta      [4]VerifC02Sta
+}
+
+type VerifC02Wrapper struct {
+	CtxRound uint64
+	CtxIndex uint32
+	Chamber  VerifC02Mgr
+	House    VerifC02Mgr
+}
+
+type VerifC02Marked struct {
+	Set      bool
+	Hash     common.Hash
+	Priority common.Hash
+	Round    uint64
+	Index    uint32
+	HasBlock bool
+}
+
+type VerifC02Over struct {
+	Hash    common.Hash
+	Chamber [4]bool // Prevote, Precommit, NextIndex, Certificate
+	House   [4]bool
+}
+
+// VerifC02Dump is a read-only copy of everything the Voter keeps.
+type VerifC02Dump struct {
+	HasRound     bool
+	Round        uint64
+	Index        uint32
+	Step         uint32
+	Precommitted bool
+	Committed    bool
+	SentChange   bool
+	ShouldCert   bool
+	Certificated bool
+	NextMarked   VerifC02Marked
+	CurMarked    VerifC02Marked
+	NextVoted    VerifC02Marked
+	VoteOver     []VerifC02Over
+	Current      int // position of votesMgr in Wrappers, -1 if none / not in the list
+	Wrappers     []VerifC02Wrapper
+	HasUpdateEv  bool
+	UpdateEv     VerifC02Marked // Round, Index, Hash of the pending UpdateExistedHeaderEvent
+
+	// VoteDB (in-memory part)
+	DBHasRound bool
+	DBRound    uint64
+	DBIndex    uint32
+	DBMark     map[VoteType]uint8
+
+	// VoteBLSMgr
+	BlsRound uint64
+	MyIdx    int
+	MyCertIx int
+}
+
+var verifC02Kinds = [4]VoteType{Prevote, Precommit, NextIndex, Certificate}
+
+func verifC02Sta(s *VoteSta) VerifC02Sta {
+	s.lock.Lock()
+	defer s.lock.Unlock()
+	out := VerifC02Sta{
+		Counts: make(map[common.Hash]uint32),
+		Addr:   make(map[common.Address]VerifC02AddrVote),
+		Info:   make(map[common.Hash]map[common.Address]uint32),
+	}
+	for h, c := range s.voteCounts {
+		out.Counts[h] = c
+	}
+	for a, st := range s.addressVotes {
+		out.Addr[a] = VerifC02AddrVote{Hash: st.Hash, Double: st.DoubleVoted}
+	}
+	for h, m := range s.votesInfo {
+		cp := make(map[common.Address]uint32)
+		for a, sv := range m {
+			cp[a] = sv.Votes
+		}
+		out.Info[h] = cp
+	}
+	return out
+}
+
+func verifC02Mgr(m *VotesManager) VerifC02Mgr {
+	out := VerifC02Mgr{Index: m.roundIndex}
+	if m.round != nil {
+		out.HasRound, out.Round = true, m.round.Uint64()
+	}
+	out.Sta = [4]VerifC02Sta{verifC02Sta(m.prevotes), verifC02Sta(m.precommits), verifC02Sta(m.nextIndexs), verifC02Sta(m.certificates)}
+	return out
+}
+
+func verifC02Marked(m *MarkedBlockInfo) VerifC02Marked {
+	if m == nil {
+		return VerifC02Marked{}
+	}
+	out := VerifC02Marked{Set: true, Hash: m.BlockHash, Priority: m.Priority, Index: m.RoundIndex, HasBlock: m.Block != nil}
+	if m.Round != nil {
+		out.Round = m.Round.Uint64()
+	}
+	return out
+}
+
+// VerifC02Dump copies the Voter state (takes v.lock like the handlers do).
+func (v *Voter) VerifC02Dump() *VerifC02Dump {
+	v.lock.Lock()
+	defer v.lock.Unlock()
+	d := &VerifC02Dump{
+		Index: v.roundIndex, Step: v.step,
+		Precommitted: v.precommitted, Committed: v.committed, SentChange: v.sentChangeEvent,
+		ShouldCert: v.shouldCert, Certificated: v.certificated,
+		NextMarked: verifC02Marked(v.nextMarked), CurMarked: verifC02Marked(v.curMarked), NextVoted: verifC02Marked(v.nextVoted),
+		Current: -1,
+	}
+	if v.round != nil {
+		d.HasRound, d.Round = true, v.round.Uint64()
+	}
+	for h, st := range v.voteOver {
+		o := VerifC02Over{Hash: h}
+		for i, k := range verifC02Kinds {
+			o.Chamber[i] = st.status(k, params.KindChamber)
+			o.House[i] = st.status(k, params.KindHouse)
+		}
+		d.VoteOver = append(d.VoteOver, o)
+	}
+	for i, w := range v.votesWrappers.wrappers {
+		wd := VerifC02Wrapper{Chamber: verifC02Mgr(w.chamber), House: verifC02Mgr(w.house)}
+		if i < len(v.votesWrappers.contexts) {
+			wd.CtxRound, wd.CtxIndex = GetInfoFromHash(v.votesWrappers.contexts[i])
+		}
+		d.Wrappers = append(d.Wrappers, wd)
+		if w == v.votesMgr {
+			d.Current = i
+		}
+	}
+	if v.votesUpdateEv != nil {
+		d.HasUpdateEv = true
+		d.UpdateEv = VerifC02Marked{Set: true, Hash: v.votesUpdateEv.BlockHash, Index: v.votesUpdateEv.RoundIndex}
+		if v.votesUpdateEv.Round != nil {
+			d.UpdateEv.Round = v.votesUpdateEv.Round.Uint64()
+		}
+	}
+	c := v.voteCache
+	c.lock.Lock()
+	if c.round != nil {
+		d.DBHasRound, d.DBRound = true, c.round.Uint64()
+	}
+	d.DBIndex = c.roundIndex
+	d.DBMark = make(map[VoteType]uint8)
+	for k, m := range c.mark {
+		d.DBMark[k] = m
+	}
+	c.lock.Unlock()
+	if v.blsMgr != nil {
+		if v.blsMgr.currRound != nil {
+			d.BlsRound = v.blsMgr.currRound.Uint64()
+		}
+		d.MyIdx, d.MyCertIx = v.blsMgr.myIdx, v.blsMgr.myCertIdx
+	}
+	return d
+}
